@@ -153,6 +153,14 @@ def fixups (a : Arena) (old used new : Nat) : Arena :=
 structure Cfg where
   alwaysMove : Bool := false     -- hook yr_verif_arena_always_move
 
+/-- the growth path of `_yr_arena_allocate_memory`: realloc returned `newBase` for the new capacity
+    `nc`; if the block moved, the relocation list is walked and pointers into the old block are
+    adjusted; `zero` = YR_ARENA_ZERO_MEMORY (the new spare capacity is cleared) -/
+def growBuf (a : Arena) (b newBase nc : Nat) (zero : Bool) : Arena :=
+  let bf := a.bufAt b
+  let a1 := if bf.base ≠ 0 ∧ bf.base ≠ newBase then fixups a bf.base bf.data.length newBase else a
+  a1.setBuf b { data := (a1.bufAt b).data, cap := nc, base := newBase, dirty := !zero }
+
 /-- `_yr_arena_allocate_memory` followed by filling the region with `fill`
     (`zero = true`: YR_ARENA_ZERO_MEMORY, `fill` is all zeros; otherwise write_data's memcpy).
     `newBase` is what realloc returns if the growth path is taken. -/
@@ -166,9 +174,8 @@ def allocMem (cfg : Cfg) (newBase : Nat) (a : Arena) (b : Nat) (zero : Bool) (fi
     if cap - used < size then
       let nc := newCap a.init cap used size
       if nc > 2 ^ maxBufferSizeLog2 then .error .insufficientMemory else
-      let a1 := if bf.base ≠ 0 ∧ bf.base ≠ newBase then fixups a bf.base used newBase else a
-      let d := (a1.bufAt b).data
-      .ok (a1.setBuf b { data := d ++ fill, cap := nc, base := newBase, dirty := !zero }, ⟨b, used⟩)
+      let a1 := growBuf a b newBase nc zero
+      .ok (a1.setBuf b { a1.bufAt b with data := (a1.bufAt b).data ++ fill }, ⟨b, used⟩)
     else
       .ok ({ a with unspec := a.unspec || (zero && bf.dirty && size > 0) }.setBuf b
             { bf with data := bf.data ++ fill, cap := cap }, ⟨b, used⟩)
